@@ -557,7 +557,7 @@ def run(ctx):
     if not binp:
         return
     r = ctx.rng
-    ncases = 2500 if ctx.thorough else 320
+    ncases = 6000 if ctx.thorough else 320
     cases = []
     for i in range(ncases):
         c = gen_case(r, i, ctx.thorough)
